@@ -3,8 +3,17 @@ judging result objects against a reference value.  Shared by C06/C07/C18/C19."""
 from vf import lib
 from vf.lib import INFINITY, Point, PointJacobi
 
+class SubJacobi(PointJacobi):
+    """What an application makes when it attaches its own data to points: a subclass that changes nothing."""
+    __slots__ = ()
+
+
+class SubPoint(Point):
+    pass
+
+
 # representation kinds of a finite point
-FINITE_REPS = ("j1", "jz2", "jzr", "neg1", "negz", "legacy")
+FINITE_REPS = ("j1", "jz2", "jzr", "neg1", "negz", "legacy", "subj", "sublegacy")
 # representation kinds of the identity
 IDENT_REPS = ("INF", "z0", "yz0_001", "INFcopy")
 
@@ -37,14 +46,21 @@ def build(cfp, P, rep, rng, order=None, generator=False):
         return -lib.mk_jac(cfp, (x, (-y) % p), rng.randrange(2, p) if p > 3 else 2, order)
     if rep == "legacy":
         return Point(cfp, x, y, order)
+    if rep == "subj":          # instance of a trivial subclass, random scaling
+        z = rng.randrange(1, p)
+        return SubJacobi(cfp, x * z * z % p, y * z * z * z % p, z, order, generator)
+    if rep == "sublegacy":
+        return SubPoint(cfp, x, y, order)
     raise ValueError(rep)
 
 
 def rep_class(rep):
     if rep in ("j1", "neg1"):
         return "z1"
-    if rep in ("jz2", "jzr", "negz"):
+    if rep in ("jz2", "jzr", "negz", "subj"):
         return "z"
+    if rep == "sublegacy":
+        return "legacy"
     return rep
 
 
@@ -122,11 +138,15 @@ def src(obj, cvar="cfp"):
     if isinstance(obj, PointJacobi):
         X, Y, Z = (int(c) for c in lib.raw_coords(obj))
         o = obj.order()
+        if type(obj) is not PointJacobi:
+            return "type('SubJacobi', (PointJacobi,), {})(%s, %d, %d, %d, %r)" % (cvar, X, Y, Z, o if o is None else int(o))
         if Y < 0:
             return "(-PointJacobi(%s, %d, %d, %d, %r))" % (cvar, X, -Y, Z, o if o is None else int(o))
         return "PointJacobi(%s, %d, %d, %d, %r)" % (cvar, X, Y, Z, o if o is None else int(o))
     if isinstance(obj, Point):
         o = obj.order()
+        if type(obj) is not Point:
+            return "type('SubPoint', (Point,), {})(%s, %d, %d, %r)" % (cvar, obj.x(), obj.y(), o if o is None else int(o))
         return "Point(%s, %d, %d, %r)" % (cvar, obj.x(), obj.y(), o if o is None else int(o))
     return repr(obj)
 
